@@ -185,42 +185,73 @@ def run(ctx):
         ctx.check(rt.endswith("&") and not rt.endswith("&&") and "const" not in rt, "R08.4", f, "chains-by-reference:%s/%d" % (f.name, len(f.params)),
                   "%s returns `%s`: whatever is chained onto its result (`f.args(a) %% b`, `f %% a %% b`) goes to a temporary copy and never reaches the formatter that is rendered" % (f.name, rt), f,
                   why_ok=rt)
-    # ---- R08.5: the message is the stream representation of the arguments, one after the other. The recursion over the pack may
-    # be written as a function-object template (make_exception<Arg, Args...>) or as overloaded function templates: a
-    # *streamer* is a pattern in nitro::except::detail whose first parameter is the stream and whose second is forwarded into it
+    # ---- R08.5: the message is the stream representation of the arguments, one after the other. The walk over the pack may be a
+    # recursion through *streamers* (function-object template or overloaded function templates in nitro::except::detail whose first
+    # parameter is the stream) or ONE pack expansion inside a braced list (the only place where left-to-right evaluation is guaranteed)
     def is_streamer(f):
-        return f.has_cfg and f.is_pattern and f.qual.startswith("nitro::except::detail::") and len(f.params) >= 2 and "stream" in (f.params[0].get("type") or "") \
-            and (f.params[0].get("type") or "").rstrip().endswith("&") and f.params[1].get("fwd") is not None or \
-            (f.has_cfg and f.is_pattern and (f.cls or "").startswith("nitro::except::detail::") and f.op == "()" and len(f.params) >= 2 and "stream" in (f.params[0].get("type") or ""))
+        if not (f.has_cfg and (f.is_pattern or not f.flags.get("instantiation")) and f.file.startswith("/repo/") and f.params and "stream" in (f.params[0].get("type") or "") and (f.params[0].get("type") or "").rstrip().endswith("&")):
+            return False
+        if f.qual == "nitro::except::detail::make_string":
+            return False
+        return (f.qual.startswith("nitro::except::detail::") and f.kind == "function") or ((f.cls or "").startswith("nitro::except::detail::") and f.op == "()")
     me = [f for f in prog.fns.values() if is_streamer(f)]
-    ctx.need("R08.5", "message streamers (base case + recursive case)", len(me), 2)
     family = {(f.cls or f.qual) for f in me}
     fam_short = {short(x).split("<")[0] for x in family}
+
+    def hands_on(text, m, rest):
+        """the statement passes (stream, forward(rest)...) to a streamer of the family / a dependent callee"""
+        if not text.endswith("(%s, forward(%s)...)" % (m, rest)):
+            return False
+        head = text[:-len("(%s, forward(%s)...)" % (m, rest))]
+        return head == "?" or short(head.split("(")[0]).split("<")[0] in fam_short or (bool(fam_short) and re.match(r"(%s)<" % "|".join(map(re.escape, fam_short)), head) is not None) or head.endswith("{}")
+
+    def expands_in_list(e, m, rest):
+        """the statement is one braced list whose pack expansion streams forward(rest) into m - and nothing else is streamed"""
+        x = e["expr"]
+        lists = [y for y in walk(x) if isinstance(y, dict) and y.get("k") == "init_list"]
+        t = fmt(x)
+        return bool(lists) and t.count("<<") == 1 and re.search(r"\{.*\(%s << forward\(%s\)\).*\.\.\.\s*\}" % (re.escape(m), re.escape(rest)), t) is not None
+
+    uses_family = recurses = False
     has_base = has_rec = False
     for f in me:
-        body = [fmt(e["expr"]) for _, _, e in f.roots()]
-        m, a = f.params[0]["name"], f.params[1]["name"]
-        first = body[:1] == ["(%s << forward(%s))" % (m, a)]
+        els = list(f.roots())
+        body = [fmt(e["expr"]) for _, _, e in els]
+        m = f.params[0]["name"]
         variadic = any((p0.get("type") or "").rstrip().endswith("...") for p0 in f.params)
         if not variadic:
             has_base = True
-            ctx.check(first and len(body) == 1, "R08.5", f, "streams-last-argument", "%s does %s instead of streaming its one argument" % (short(f.qual), body), f)
+            a = f.params[1]["name"] if len(f.params) > 1 else None
+            okb = (a is None and not [b0 for b0 in body if b0 not in ("return null", "return")]) or (a is not None and body == ["(%s << forward(%s))" % (m, a)])
+            ctx.check(okb, "R08.5", f, "streams-last-argument", "%s does %s instead of streaming exactly what is left (%s)" % (short(f.qual), body, a or "nothing"), f)
         else:
             has_rec = True
-            rest = f.params[2]["name"] if len(f.params) > 2 else "args"
-            calls = [n for _, _, e in list(f.roots())[1:] for n in walk(e["expr"]) if n.get("k") in ("call", "ucall")]
-            rec = len(body) == 2 and bool(calls) and any(short((n.get("name") or "")).split("<")[0] in fam_short or re.match(r"(%s)<" % "|".join(map(re.escape, fam_short)), fmt(n)) or fmt(n).startswith("?(") for n in calls) \
-                and re.search(r"\(%s, forward\(%s\)\.\.\.\)$" % (re.escape(m), re.escape(rest)), body[1]) is not None
-            ctx.check(first and rec, "R08.5", f, "streams-first-then-recurses", "%s does %s instead of streaming the first argument and handing the rest on in order" % (short(f.qual), body), f)
-    ctx.check(has_base and has_rec, "R08.5", "nitro::except::detail", "recursion-complete", "the pack recursion lacks its %s case" % ("base" if not has_base else "recursive"), "-")
+            a = f.params[1]["name"] if len(f.params) > 2 or not (f.params[1].get("type") or "").rstrip().endswith("...") else None
+            rest = f.params[-1]["name"]
+            first = a is None or body[:1] == ["(%s << forward(%s))" % (m, a)]
+            tail = els[1:] if a is not None else els
+            okr = first and len(tail) == 1 and (hands_on(fmt(tail[0][2]["expr"]), m, rest) or expands_in_list(tail[0][2], m, rest))
+            recurses = recurses or (len(tail) == 1 and hands_on(fmt(tail[0][2]["expr"]), m, rest))
+            ctx.check(okr, "R08.5", f, "streams-first-then-recurses", "%s does %s instead of streaming the first argument and then the rest in order" % (short(f.qual), body), f)
     ms = [f for f in prog.fns.values() if f.has_cfg and f.is_pattern and f.qual == "nitro::except::detail::make_string"]
+    ctx.need("R08.5", "make_string pattern", len(ms), 1)
     for f in ms:
-        body = [fmt(e["expr"]) for _, _, e in f.roots()]
-        sv = [v["name"] for _, _, e in f.roots() if e["expr"].get("k") == "decl" for v in e["expr"]["vars"] if "stringstream" in (v.get("type") or "")]
+        els = list(f.roots())
+        body = [fmt(e["expr"]) for _, _, e in els]
+        sv = [v["name"] for _, _, e in els if e["expr"].get("k") == "decl" for v in e["expr"]["vars"] if "stringstream" in (v.get("type") or "")]
         pa = f.params[0]["name"] if f.params else "args"
-        ok = len(body) == 3 and len(sv) == 1 and body[2] == "return %s.str()" % sv[0] and body[1].endswith("(%s, forward(%s)...)" % (sv[0], pa)) \
-            and (body[1].startswith("?(") or short(body[1].split("(")[0]).split("<")[0] in fam_short or re.match(r"(%s)<" % "|".join(map(re.escape, fam_short or {"-"})), body[1]) is not None)
-        ctx.check(ok, "R08.5", f, "make_string-returns-stream-text", "make_string is %s" % body, f)
+        mid = [e for _, _, e in els if e["expr"].get("k") not in ("decl", "return") and not (e["expr"].get("k") == "decl")]
+        mid = [e for e in mid if "using" not in (e.get("text") or "")[:6]]
+        fam_call = len(sv) == 1 and len(mid) == 1 and hands_on(fmt(mid[0]["expr"]), sv[0], pa)
+        in_list = len(sv) == 1 and len(mid) == 1 and expands_in_list(mid[0], sv[0], pa)
+        uses_family = uses_family or fam_call
+        ok = len(sv) == 1 and (fam_call or in_list) and body[-1:] == ["return %s.str()" % sv[0]]
+        ctx.check(ok, "R08.5", f, "make_string-returns-stream-text", "make_string is %s: not `stream every argument in order into one fresh stream, return its text`" % body, f,
+                  why_ok="pack expansion inside a braced list" if in_list else "recursion through %s" % sorted(fam_short))
+    if uses_family:
+        ctx.need("R08.5", "message streamers", len(me), 2 if recurses else 1)
+    if recurses:
+        ctx.check(has_base and has_rec, "R08.5", "nitro::except::detail", "recursion-complete", "the pack recursion lacks its %s case" % ("base" if not has_base else "recursive"), "-")
     ex = [f for f in prog.fns.values() if f.has_cfg and f.is_pattern and f.cls == "nitro::except::exception" and f.kind == "ctor"]
     ctx.need("R08.5", "except::exception constructor (pattern)", len(ex), 1)
     for f in ex:
